@@ -11,6 +11,7 @@ import SuxModel.Edge.Runner
 import SuxModel.Space.Runner
 import SuxModel.Atomic.Runner
 import SuxModel.Func.Runner
+import SuxModel.Serde.Runner
 /-!
 # `suxdrv <runner>` : line-protocol driver over the executable model definitions
 -/
@@ -38,7 +39,8 @@ def runners : List (String × Runner) := [
   ("edge", Sux.Edge.runner),
   ("space", Sux.Space.runner),
   ("atomic", Sux.Atomic.runner),
-  ("func", Sux.Func.runner)
+  ("func", Sux.Func.runner),
+  ("serde", Sux.Serde.runner)
 ]
 
 def main (args : List String) : IO UInt32 := do
